@@ -231,11 +231,9 @@ def write(self, file_name: Union[str, Path], create_signature, remove_duplicates
                 output_file.write('\n')
 
     if create_signature:  # Sign the file
-        # Calculate digest
-        with open(file_name, 'r') as output_file:
-            buffer = output_file.read()
-
-            md5 = hashlib.md5(buffer.encode('utf-8')).hexdigest()
+        # Calculate digest over the bytes of the file as they are on disk
+        with open(file_name, 'rb') as output_file:
+            md5 = hashlib.md5(output_file.read()).hexdigest()
 
         # Write signature
         with open(file_name, 'a') as output_file:
